@@ -4,6 +4,7 @@ CONSTANTS
   T = 100
   STALL = {}
   LateResponseOK = TRUE
+  NoTimeout = FALSE
   MaxId = 200
   ACCEPT <- TraceNat
   DELAY <- TraceNat
